@@ -6,6 +6,7 @@ import z3
 
 from .interp import (Panic, Unsupported, resolve, invoke, exec_func, binop, to_bv, to_bool, ty_bits, wrap, overflow_flag,
                      norm_type, parse_callee, type_tag)
+from .vals import inner_ref as R
 from .vals import (Agg, VecV, MapV, SymStr, CellV, Ref, FnPtr, Opaque, PathV, FmtV, UNIT, NONE, some, ok, err, tup, is_sym,
                    seq_items, rebuild_seq, deref_all as D)
 
@@ -318,6 +319,10 @@ def install(prog):
        'Vec::shrink_to_fit', 'Vec::reserve', 'String::reserve', 'core::slice::as_ref', 'Option::as_deref', 'Option::as_deref_mut',
        'Option::as_mut', 'Option::as_ref', 'std::result::Result::as_ref', 'Result::as_ref', 'Vec::leak')
     def b_id(ctx, a, callee):
+        if 'AsRef<' in callee and re.search(r'AsRef<(std::path::)?Path>', callee) and a:
+            v = D(a[0])
+            if type(v) in (str, SymStr):
+                return prog.to_path(v)      # &str / String viewed as a Path
         return a[0] if a else UNIT
 
     @B('re:^<.* as Clone>::clone$', 'Option::cloned', 'Option::copied', 'core::slice::to_vec', 'slice::to_vec', 'str::to_owned', '<str as ToOwned>::to_owned',
@@ -337,7 +342,7 @@ def install(prog):
     @B('std::boxed::box_assume_init_into_vec_unsafe', 'Box::assume_init', 'Box::write')
     def b_assume_init(ctx, a, callee):
         if callee.endswith('write'):
-            a[0].store(a[1])
+            R(a[0]).store(a[1])
         return D(a[0])
 
     @B('re:^<.* as Drop>::drop$')
@@ -473,23 +478,23 @@ def install(prog):
 
     @B('Option::take')
     def b_opt_take(ctx, a, callee):
-        v = a[0].load()
-        a[0].store(NONE)
+        v = R(a[0]).load()
+        R(a[0]).store(NONE)
         return v
 
     @B('Option::replace')
     def b_opt_replace(ctx, a, callee):
-        v = a[0].load()
-        a[0].store(some(a[1]))
+        v = R(a[0]).load()
+        R(a[0]).store(some(a[1]))
         return v
 
     @B('Option::insert', 'Option::get_or_insert')
     def b_opt_insert(ctx, a, callee):
-        v = a[0].load()
+        v = R(a[0]).load()
         if callee.endswith('get_or_insert') and v.variant == 1:
-            return a[0].extend(('f', 0))
-        a[0].store(some(a[1]))
-        return a[0].extend(('f', 0))
+            return R(a[0]).extend(('f', 0))
+        R(a[0]).store(some(a[1]))
+        return R(a[0]).extend(('f', 0))
 
     @B('std::result::Result::ok', 'Result::ok')
     def b_res_ok(ctx, a, callee):
@@ -794,7 +799,7 @@ def install(prog):
     # ---------------------------------------------------------------- mem
     @B('std::mem::take', 'core::mem::take')
     def b_mem_take(ctx, a, callee):
-        v = a[0].load()
+        v = R(a[0]).load()
         t = type(v)
         if t is VecV:
             d = VecV()
@@ -810,21 +815,21 @@ def install(prog):
             d = False
         else:
             raise Unsupported('mem::take of %r' % (v,))
-        a[0].store(d)
+        R(a[0]).store(d)
         return v
 
     @B('std::mem::replace', 'core::mem::replace')
     def b_mem_replace(ctx, a, callee):
-        v = a[0].load()
-        a[0].store(a[1])
+        v = R(a[0]).load()
+        R(a[0]).store(a[1])
         return v
 
     @B('std::mem::swap', 'core::mem::swap')
     def b_mem_swap(ctx, a, callee):
-        x = a[0].load()
-        y = a[1].load()
-        a[0].store(y)
-        a[1].store(x)
+        x = R(a[0]).load()
+        y = R(a[1]).load()
+        R(a[0]).store(y)
+        R(a[1]).store(x)
         return UNIT
 
     # ---------------------------------------------------------------- RefCell / Cell
@@ -864,45 +869,45 @@ def install(prog):
 
     @B('Vec::push', 'VecDeque::push_back')
     def b_vec_push(ctx, a, callee):
-        v = a[0].load()
-        a[0].store(VecV(v.items + (a[1],)))
+        v = R(a[0]).load()
+        R(a[0]).store(VecV(v.items + (a[1],)))
         return UNIT
 
     @B('Vec::pop')
     def b_vec_pop(ctx, a, callee):
-        v = a[0].load()
+        v = R(a[0]).load()
         if not v.items:
             return NONE
-        a[0].store(VecV(v.items[:-1]))
+        R(a[0]).store(VecV(v.items[:-1]))
         return some(v.items[-1])
 
     @B('Vec::insert')
     def b_vec_insert(ctx, a, callee):
-        v = a[0].load()
+        v = R(a[0]).load()
         i = a[1]
         if i > len(v.items):
             raise Panic('insertion index out of bounds')
-        a[0].store(VecV(v.items[:i] + (a[2],) + v.items[i:]))
+        R(a[0]).store(VecV(v.items[:i] + (a[2],) + v.items[i:]))
         return UNIT
 
     @B('Vec::remove')
     def b_vec_remove(ctx, a, callee):
-        v = a[0].load()
+        v = R(a[0]).load()
         i = a[1]
         if i >= len(v.items):
             raise Panic('removal index out of bounds')
-        a[0].store(VecV(v.items[:i] + v.items[i + 1:]))
+        R(a[0]).store(VecV(v.items[:i] + v.items[i + 1:]))
         return v.items[i]
 
     @B('Vec::truncate')
     def b_vec_truncate(ctx, a, callee):
-        v = a[0].load()
-        a[0].store(VecV(v.items[:a[1]]))
+        v = R(a[0]).load()
+        R(a[0]).store(VecV(v.items[:a[1]]))
         return UNIT
 
     @B('Vec::clear')
     def b_vec_clear(ctx, a, callee):
-        a[0].store(VecV())
+        R(a[0]).store(VecV())
         return UNIT
 
     @B('Vec::len', 'core::slice::len', 'VecDeque::len')
@@ -915,27 +920,27 @@ def install(prog):
 
     @B('Vec::append')
     def b_vec_append(ctx, a, callee):
-        v = a[0].load()
-        o = a[1].load()
-        a[0].store(VecV(v.items + o.items))
-        a[1].store(VecV())
+        v = R(a[0]).load()
+        o = R(a[1]).load()
+        R(a[0]).store(VecV(v.items + o.items))
+        R(a[1]).store(VecV())
         return UNIT
 
     @B('<Vec as Extend>::extend', 'Vec::extend_from_slice')
     def b_vec_extend(ctx, a, callee):
-        v = a[0].load()
+        v = R(a[0]).load()
         src = D(a[1])
         items = list(seq_items(src)) if type(src) in (VecV, bytes) else it_drain(ctx, as_it(ctx, a[1]))
-        a[0].store(VecV(v.items + tuple(D(x) if type(x) is Ref else x for x in items)))
+        R(a[0]).store(VecV(v.items + tuple(D(x) if type(x) is Ref else x for x in items)))
         return UNIT
 
     @B('Vec::drain')
     def b_vec_drain(ctx, a, callee):
-        v = a[0].load()
+        v = R(a[0]).load()
         r = D(a[1])
         n = len(v.items)
         lo, hi = range_bounds(r, n)
-        a[0].store(VecV(v.items[:lo] + v.items[hi:]))
+        R(a[0]).store(VecV(v.items[:lo] + v.items[hi:]))
         return it_seq(v.items[lo:hi])
 
     def range_bounds(r, n):
@@ -1025,8 +1030,8 @@ def install(prog):
 
     @B('core::slice::reverse')
     def b_reverse(ctx, a, callee):
-        v = a[0].load()
-        a[0].store(rebuild_seq(v, tuple(reversed(seq_items(v)))))
+        v = R(a[0]).load()
+        R(a[0]).store(rebuild_seq(v, tuple(reversed(seq_items(v)))))
         return UNIT
 
     @B('core::slice::contains', 'Vec::contains')
@@ -1047,7 +1052,7 @@ def install(prog):
         if callee.endswith(('iter', '::into_iter')) and 'iter_mut' not in callee and 'IterMut' not in callee and type(a[0]) is Ref and not re.search(r'<&mut |<&\'\w+ mut ', callee):
             return it_of(ctx, v)
         if callee.endswith('drain'):
-            a[0].store(MapV(v.kind))
+            R(a[0]).store(MapV(v.kind))
             return it_of(ctx, v)
         return it_of(ctx, a[0] if ('iter_mut' in callee or re.search(r'<&(\'\w+ )?mut ', callee)) else v)
 
@@ -1141,7 +1146,9 @@ def install(prog):
     @B('re:^<.* as Iterator>::collect$')
     def b_collect(ctx, a, callee):
         items = it_drain(ctx, as_it(ctx, a[0]))
-        items = [D(x) if type(x) is Ref else x for x in items]
+        m = re.search(r'::collect::<(.*)>$', callee, re.S)
+        if not (m and '&mut ' in m.group(1)):
+            items = [D(x) if type(x) is Ref else x for x in items]      # a collection of values (or of shared refs = values)
         return collect_into(ctx, items, callee)
 
     @B('re:^<.* as FromIterator>::from_iter$')
@@ -1272,36 +1279,36 @@ def install(prog):
 
     @B('core::slice::sort', 'core::slice::sort_unstable', 'Vec::sort', 'Vec::dedup')
     def b_sort(ctx, a, callee):
-        v = a[0].load()
+        v = R(a[0]).load()
         items = list(v.items)
         if callee.endswith('dedup'):
             out = []
             for x in items:
                 if not out or not ctx.branch(deep_eq(ctx, out[-1], x)):
                     out.append(x)
-            a[0].store(VecV(out))
+            R(a[0]).store(VecV(out))
             return UNIT
         import functools
         items.sort(key=functools.cmp_to_key(lambda p, q: cmp_vals(ctx, p, q)))
-        a[0].store(VecV(items))
+        R(a[0]).store(VecV(items))
         return UNIT
 
     @B('core::slice::sort_by', 'core::slice::sort_unstable_by')
     def b_sort_by(ctx, a, callee):
         import functools
-        v = a[0].load()
+        v = R(a[0]).load()
         items = list(v.items)
         items.sort(key=functools.cmp_to_key(lambda p, q: D(ctx.call_value(a[1], [p, q])).variant))
-        a[0].store(VecV(items))
+        R(a[0]).store(VecV(items))
         return UNIT
 
     @B('core::slice::sort_by_key', 'core::slice::sort_unstable_by_key')
     def b_sort_by_key(ctx, a, callee):
         import functools
-        v = a[0].load()
+        v = R(a[0]).load()
         items = list(v.items)
         items.sort(key=functools.cmp_to_key(lambda p, q: cmp_vals(ctx, ctx.call_value(a[1], [p]), ctx.call_value(a[1], [q]))))
-        a[0].store(VecV(items))
+        R(a[0]).store(VecV(items))
         return UNIT
 
     @B('core::slice::split_at', 'core::slice::split_first', 'core::slice::split_last')
